@@ -54,7 +54,9 @@ def stepfunc_exc_status(ix, exc):
         return ix.exc_is_subclass(ca, cb)
     if sub(exc, "AssertionError"):
         return "failed"
-    if sub(exc, "StepNotImplementedError"):
+    # the two documented ways of saying "this step is pending" - named here, not derived from the class hierarchy
+    # (the hierarchy is part of what is being checked)
+    if exc in ("StepNotImplementedError", "PendingStepError") or sub(exc, "StepNotImplementedError"):
         return "pending"
     if sub(exc, "KeyboardInterrupt"):
         return "error"
